@@ -31,6 +31,19 @@ MIMES = {
     "odg": "application/vnd.oasis.opendocument.graphics",
 }
 
+def _annotation(exp, tk, arng=None) -> str:
+    """An office:annotation whose comment text is plain paragraphs and, in part, a bulleted list (legal annotation content); all of it
+    is comment text (class m: never in the default full text)."""
+    arng = arng or random.Random(f"annotation:{tk.n}")
+    parts = [f"<text:p>{exp.out(tk.new('m'))}</text:p>"]
+    if arng.random() < 0.5:
+        items = "".join(f"<text:list-item><text:p>{exp.out(tk.new('m'))}</text:p></text:list-item>" for _ in range(arng.randint(1, 2)))
+        parts.insert(arng.randrange(2), f"<text:list>{items}</text:list>")
+    if arng.random() < 0.3:
+        parts.append(f"<text:p>{exp.out(tk.new('m'))}</text:p>")
+    return "<office:annotation><dc:creator>rev</dc:creator><dc:date>2024-01-01T00:00:00</dc:date>" + "".join(parts) + "</office:annotation>"
+
+
 ODT_FEATURES = {
     "no-meta": "package without the optional meta.xml (twin: present)",
     "tracked-deletion": "text:tracked-changes with a deletion paragraph (twin: no tracked changes)",
@@ -161,8 +174,7 @@ def build_odt(seed: int, feature: str | None = None, twin: bool = False):
                 n = exp.out(tk.new("n"))
                 out.append(f'{w(cls, 1, 1)[0]}<text:note text:id="ftn{rng.randint(1, 999)}" text:note-class="footnote"><text:note-citation>1</text:note-citation><text:note-body><text:p>{n}</text:p></text:note-body></text:note> ')
             else:
-                m = exp.out(tk.new("m"))
-                out.append(f'{w(cls, 1, 1)[0]}<office:annotation><dc:creator>rev</dc:creator><dc:date>2024-01-01T00:00:00</dc:date><text:p>{m}</text:p></office:annotation> ')
+                out.append(f'{w(cls, 1, 1)[0]}{_annotation(exp, tk)} ')
         return "".join(out)
 
     def para(cls="b"):
@@ -286,9 +298,9 @@ def build_odt(seed: int, feature: str | None = None, twin: bool = False):
                 body.append(f'<text:h text:style-name="Heading_20_1" text:outline-level="1">{" ".join(w("h", 1, 2, True))}</text:h>')
                 body.append(para())
             elif feature == "note-with-headings":
-                n, m = exp.out(tk.new("n")), exp.out(tk.new("m"))
+                n = exp.out(tk.new("n"))
                 body.append(f'<text:p>{w("b", 1, 1)[0]}<text:note text:id="ftnX" text:note-class="footnote"><text:note-citation>1</text:note-citation><text:note-body><text:p>{n}</text:p></text:note-body></text:note> '
-                            f'{w("b", 1, 1)[0]}<office:annotation><dc:creator>rev</dc:creator><dc:date>2024-01-01T00:00:00</dc:date><text:p>{m}</text:p></office:annotation></text:p>')
+                            f'{w("b", 1, 1)[0]}{_annotation(exp, tk)}</text:p>')
     body.append(para())
     hdr, ftr = exp.out(tk.new("f")), exp.out(tk.new("f"))
     styles = (f'<?xml version="1.0" encoding="UTF-8"?><office:document-styles {NSDECL}><office:styles><style:style style:name="Standard" style:family="paragraph"/>'
@@ -381,8 +393,7 @@ def build_odp(seed: int, feature: str | None = None, twin: bool = False):
                 fx, _ = _frame_image(rng, files, exp, n_img, s + 1, y=f"{y}cm")
                 frames.append(fx)
             if rng.random() < 0.2:
-                m = exp.out(tk.new("m"))
-                frames.append(f'<office:annotation><dc:creator>rev</dc:creator><dc:date>2024-01-01T00:00:00</dc:date><text:p>{m}</text:p></office:annotation>')
+                frames.append(_annotation(exp, tk))
         if feature == "linked-image" and s == feature_slide:
             # a picture frame that LINKS a file outside the package (parent-relative href) while the package holds a part with the
             # same trailing path: the linked file is not part of the document (twin: no such frame)
@@ -504,8 +515,10 @@ def build_ods(seed: int, feature: str | None = None, twin: bool = False):
                     continue
                 if is_f and feature == "cell-annotation" and i == 1 and j == 0:
                     t = exp.text(tk.new("c"), s)
-                    ann = "" if twin else f'<office:annotation><dc:creator>rev</dc:creator><dc:date>2024-01-01T00:00:00</dc:date><text:p>{exp.out(tk.new("m"))}</text:p></office:annotation>'
-                    cells.append(f'<table:table-cell office:value-type="string">{ann}<text:p>{t}</text:p></table:table-cell>')
+                    ann = "" if twin else _annotation(exp, tk)
+                    # (LibreOffice writes the annotation first; either order is legal)
+                    cells.append(f'<table:table-cell office:value-type="string">{ann}<text:p>{t}</text:p></table:table-cell>' if tk.n % 3 else
+                                 f'<table:table-cell office:value-type="string"><text:p>{t}</text:p>{ann}</table:table-cell>')
                     grow.append({"toks": [t]})
                     j += 1
                     continue
